@@ -454,7 +454,8 @@ bool Downtime::CanBeTriggered()
 
 	double now = Utility::GetTime();
 
-	if (now < GetStartTime() || now > GetEndTime())
+	/* Fixed downtimes are in effect during [start..end), flexible ones can be triggered during [start..end]. */
+	if (now < GetStartTime() || (GetFixed() ? now >= GetEndTime() : now > GetEndTime()))
 		return false;
 
 	return true;
